@@ -4,9 +4,10 @@
        Rerun) model-checked; all-or-nothing, nothing-partial-left, never-skip-
        a-partial-file, overwrite-respected are invariants / action properties;
 (I->S) the three built-in generators are run on several grammars/models with
-       an OSError injected at every I/O call observed in a clean run (open,
-       each write, flush, close), for overwrite on/off and a target that is
-       absent or holds an old complete output; the output directory is listed
+       a failure (OSError, KeyboardInterrupt, SystemExit) injected at every
+       I/O call observed in a clean run (open, each write, flush, close), for
+       overwrite on/off and a target that is absent, an old complete output,
+       a symlink to one, or a dangling symlink; the output directory is listed
        afterwards, the generator is re-run without overwrite, and every run
        is recorded as a trace that TLC validates against GenFile!Next
        (TraceGenFile.tla), once per deviation set.
@@ -84,7 +85,7 @@ def _first_run_io(trace):
     return out
 
 
-def _record(rep, gens, gnames):
+def _record(rep, gens, gnames, kinds):
     """For every (generator, input, overwrite, pre-existing target): a clean run, then one run per I/O call
     observed in that clean run with the failure injected at that call."""
     work = tlc.scratch("vt-c31-run-")
@@ -99,16 +100,17 @@ def _record(rep, gens, gnames):
                              f"textx.generators; only clean runs are validated (silent I/O steps)")
                 count = 0
                 for ow in (False, True):
-                    for pre in ("absent", "old"):
+                    for pre in sorted(drv.TARGET_KINDS):
                         clean = s.scenario(ow, pre, None)
                         ops = _first_run_io(clean)
-                        for k in [None] + list(range(len(ops))):
-                            tr = clean if k is None else s.scenario(ow, pre, k)
+                        plan = [(None, None)] + [(k, kind) for k in range(len(ops)) for kind in kinds]
+                        for k, kind in plan:
+                            tr = clean if k is None else s.scenario(ow, pre, k, kind)
                             label = None if k is None else ops[k] + (
                                 f"#{ops[:k + 1].count('Write')}" if ops[k] == "Write" else "")
                             traces.append(tr)
                             meta.append(dict(subject=s.name, overwrite=ow, pre=pre, crash_at=k, crash_op=label,
-                                             writes=s.n))
+                                             failure=kind, writes=s.n))
                             count += 1
                 rep.bounds.setdefault("subjects", {})[s.name] = dict(io_calls=s.nops, writes=s.n, scenarios=count)
     finally:
@@ -142,17 +144,19 @@ def _judge(rep, traces, meta, devs):
         else:
             e = tr["events"][reached]
             rep.violation(dict(kind="trace", meta=m, trace=tr, shown=drv.short(tr, reached + 1)),
-                          f"{m['subject']} overwrite={m['overwrite']} target {m['pre']} failure at "
+                          f"{m['subject']} overwrite={m['overwrite']} target {m['pre']} {m['failure']} at "
                           f"{m['crash_op']}: event {reached + 1} {e} is not a step of GenFile!Next after "
                           f"{drv.short(tr, reached)}")
 
 
 def run(rep):
     quick = rep.tier == "quick"
-    rep.rule = ("I->S: for each built-in generator x input, one run per (overwrite, pre-existing target, failing I/O "
-                "call) with an OSError injected at every open/write/flush/close call observed in a clean run, the "
-                "output directory listed, and a re-run without overwrite; each recorded as a trace and validated by "
-                "TLC against GenFile!Next. Non-trivial: a run with an injected failure; distinct by content.")
+    rep.rule = ("I->S: for each built-in generator x input, one run per (overwrite, kind of target: absent / old "
+                "complete / symlink to an old complete output / dangling symlink, failing I/O call, kind of failure: "
+                "OSError / KeyboardInterrupt / SystemExit [/ GeneratorExit]) with the failure injected at every "
+                "open/write/flush/close call observed in a clean run, the output directory and the file behind the "
+                "link inspected, and a re-run without overwrite; each recorded as a trace and validated by TLC against "
+                "GenFile!Next. Non-trivial: a run with an injected failure; distinct by content.")
     rep.assumptions = [
         "the generators' output I/O is observed and failed through a wrapper installed as `open` in textx.export and "
         "textx.generators; a failing call has no effect on the file (the bytes of the failing write are not written)",
@@ -161,13 +165,19 @@ def run(rep):
         "the model / metamodel is loaded once per (generator, input); node names derived from id(object) are numbered "
         "by first appearance before contents are compared",
         "what the code does after the injected failure (cleanup) is not recorded, only its effect on the directory",
+        "a symlinked target points into a second scratch directory; `file` is the content seen through the path "
+        "(links followed, as gen_file's os.path.exists does), `dest` the content of the file behind the link; whether "
+        "a successful run writes through the link or replaces it is not judged",
     ]
     r = tlc.model_check("MC_GenFile", cfg="MC_GenFile.cfg", coverage=not quick)
     tlc.require_ok(r, "MC_GenFile")
     rep.add_mc("MC_GenFile", r, INVS)
     devs = {f["deviation"]: f["id"] for f in common.open_findings(PID) if f["deviation"] in KNOWN_DEVS}
     gnames = _inputs(with_big=not quick)
-    traces, meta = _record(rep, drv.GENERATORS, gnames)
+    kinds = sorted(drv.FAILURES) if not quick else ["OSError", "KeyboardInterrupt", "SystemExit"]
+    traces, meta = _record(rep, drv.GENERATORS, gnames, kinds)
+    rep.bounds["failure_kinds"] = kinds
+    rep.bounds["target_kinds"] = sorted(drv.TARGET_KINDS)
     _judge(rep, traces, meta, devs)
     rep.exhaustive = True
     rep.bounds["traces"] = dict(count=len(traces), events=sum(len(t["events"]) for t in traces))
@@ -190,7 +200,7 @@ def replay(path):
     try:
         s = drv.Subject(gen, g, work)
         s.calibrate()
-        tr = s.scenario(m["overwrite"], m["pre"], m["crash_at"])
+        tr = s.scenario(m["overwrite"], m["pre"], m["crash_at"], m.get("failure") or "OSError")
     finally:
         shutil.rmtree(work, ignore_errors=True)
     got, _ = _validate([tr], "")
